@@ -172,9 +172,18 @@ class Sim:
                     pass
             return Origin()
 
+        from aiohttp.abc import AbstractResolver
+
+        class NoResolver(AbstractResolver):      # never used (connections are scripted); avoids one
+            async def resolve(self, host, port=0, family=0):   # c-ares channel (fds) per connector
+                raise OSError("no DNS in the harness")
+
+            async def close(self):
+                pass
+
         async def mk():
             return make_connector(self.loop, origin_factory, limit=self.L, limit_per_host=self.Lh,
-                                  force_close=self.fc, use_dns_cache=False)
+                                  force_close=self.fc, use_dns_cache=False, resolver=NoResolver())
         self.connector = self.loop.run_until_complete(mk())
         self.aiohttp = aiohttp
 
@@ -754,7 +763,7 @@ def run(ctx):
     ran = check_batch(ctx, exe, "pool_trace_corpus", batch)
     ctx.close_suite("pool_trace_corpus", ran)
     # generated
-    n = 1500 if ctx.quick else 40000
+    n = 4000 if ctx.quick else 100000
     ran = 0
     chunk = 500
     while ran < n:
